@@ -28,6 +28,7 @@ HDRS = [
     (b'X-Long', b'L' * 3000, b'X-Long: ' + b'L' * 3000),           # 13: longer than a small receive buffer
     (b'X-A', b'1', b'X-A: 1'), (b'X-AB', b'2', b'X-AB: 2'),        # 14, 15: one name is a prefix of the other
     (b'X-Look', b'Content-Length: 5', b'X-Look: Content-Length: 5'),  # 16: framing look-alike inside a value
+    (b'Connection', b'Upgrade', b'Connection: Upgrade'), (b'Upgrade', b'websocket', b'Upgrade: websocket'),  # 17, 18: handshake
 ]
 BODIES = [b'', b'a', b'abc', b'\x00\xff\r\n', b'0\r\n\r\n', b'x' * 70]
 
@@ -39,7 +40,8 @@ def corpus(tier):
     hsets = [[HDRS[0]], [HDRS[0], HDRS[2]], [HDRS[0], HDRS[1], HDRS[3]], [HDRS[0], HDRS[6], HDRS[7]],
              [HDRS[0], HDRS[4], HDRS[5]], [HDRS[0], HDRS[8], HDRS[9], HDRS[10]],
              [HDRS[0], HDRS[1], HDRS[7], HDRS[6]],
-             [HDRS[0], HDRS[11], HDRS[12], HDRS[16]], [HDRS[0], HDRS[14], HDRS[15], HDRS[13]]]
+             [HDRS[0], HDRS[11], HDRS[12], HDRS[16]], [HDRS[0], HDRS[14], HDRS[15], HDRS[13]],
+             [HDRS[0], HDRS[7], HDRS[17], HDRS[18]]]
     if thorough:
         hsets += [[HDRS[0]] + list(c) for c in itertools.combinations(HDRS[1:], 2)][::6]
     for mi, m in enumerate(METHODS):
@@ -110,11 +112,26 @@ def scenarios(tier):
             if dis and not any(h[0] == b'x-lower' for h in m.headers):
                 continue
             fa = ['--threadless'] + (['--disable-headers', dis] if dis else [])
-            for pos in ('first', 'second'):
+            keepalive_ok = m.version == b'HTTP/1.1' and not any(h[0].lower() in (b'connection', b'upgrade') for h in m.headers)
+            for pos in ('first', 'second') + (('followed',) if keepalive_ok else ()):
                 # every single cut only for short messages; token-boundary cuts otherwise
                 pks = packings(m.raw, tier if (len(m.raw) <= 110 and pos == 'first') else 'quick')
                 if pos == 'second' and tier == 'quick' and (m.framing != 'cl' or len(m.raw) > 160):
                     pks = pks[:2]
+                if pos == 'followed':
+                    # the next request of the connection starts in the very segment that ends this one
+                    auth = m.target.split(b'://', 1)[1].split(b'/', 1)[0]
+                    nxt = b'GET http://%s/next HTTP/1.1\r\nHost: %s\r\n\r\n' % (auth, auth)
+                    raw = m.raw
+                    hl = raw.index(b'\r\n\r\n') + 4
+                    cuts = sorted(set(c for c in (hl - 2, hl, hl + max(1, (len(raw) - hl) // 2), len(raw) - 1, len(raw) // 2)
+                                      if 0 < c < len(raw)))
+                    if tier == 'thorough' and len(raw) <= 110:
+                        cuts = list(range(1, len(raw)))
+                    pks = [('whole', [raw + nxt])] + [('cut%d' % c, [raw[:c], raw[c:] + nxt]) for c in cuts]
+                    if len(raw) - hl >= 3:
+                        a, b = hl + 1, len(raw) - 1
+                        pks.append(('cut%d+%d' % (a, b), [raw[:a], raw[a:b], raw[b:] + nxt]))
                 for pname, pieces in pks:
                     script = []
                     if pos == 'second':
@@ -162,6 +179,10 @@ def check(w):
         return [{'symptom': 'request_not_forwarded', 'features': {}, 'detail': detail}]
     r = reqs[idx]
     out = []
+    if f['position'] == 'followed':
+        if len(reqs) < 2 or not reqs[1]['complete'] or reqs[1]['target'] != b'/next' or reqs[1]['method'] != b'GET':
+            out.append({'symptom': 'request_following_in_the_same_segment_not_forwarded_intact', 'features': {},
+                        'detail': dict(detail, got=[(q['method'], q['target'], q['complete']) for q in reqs[1:]])})
     if not r['complete']:
         out.append({'symptom': 'forwarded_request_incomplete', 'features': {}, 'detail': detail})
         return out
